@@ -177,3 +177,47 @@ def c_output_cancel_reaches_inputs(op: int, shield: bool, k0: int, v0: int) -> b
     if shield:
         return b.cancels == 0 and not b.cancelled()
     return b.cancels >= 1
+
+
+def _check_predone(op, k0, k1, k2, v0, v1, v2, mask):
+    # inputs in `mask` are already finished when f_or / f_and is called: they count as having
+    # finished first, in argument order; the others finish afterwards in argument order
+    kinds = [k0, k1, k2]
+    vals = [v0, v1, v2]
+    excs = [E("e0"), E("e1"), E("e2")]
+    fs = [RF() for _ in range(3)]
+    pre = [i for i in range(3) if (mask >> i) & 1]
+    post = [i for i in range(3) if not (mask >> i) & 1]
+    for i in pre:
+        _finish(fs[i], kinds[i], vals[i], excs[i])
+    pre = [i for i in pre if kinds[i] != 3]
+    post = post + [i for i in range(3) if (mask >> i) & 1 and kinds[i] == 3]
+    out = (f_or if op == "or" else f_and)(*fs)
+    for i in post:
+        _finish(fs[i], kinds[i], vals[i], excs[i])
+    order = pre + post
+    exp, at = _fold(op, order, kinds, vals, excs, 3)
+    got = _outcome(out)
+    if exp[0] != got[0]:
+        return False
+    if exp[0] == "value" and not (got[1] is exp[1] or got[1] == exp[1]):
+        return False
+    if exp[0] == "error" and got[1] is not exp[1]:
+        return False
+    return True
+
+
+def c_or_predone3(k0: int, k1: int, k2: int, v0: int, v1: int, v2: int, mask: int) -> bool:
+    """
+    pre: 0 <= k0 <= 3 and 0 <= k1 <= 3 and 0 <= k2 <= 3 and 1 <= mask <= 7
+    post: __return__
+    """
+    return _check_predone("or", k0, k1, k2, v0, v1, v2, mask)
+
+
+def c_and_predone3(k0: int, k1: int, k2: int, v0: int, v1: int, v2: int, mask: int) -> bool:
+    """
+    pre: 0 <= k0 <= 3 and 0 <= k1 <= 3 and 0 <= k2 <= 3 and 1 <= mask <= 7
+    post: __return__
+    """
+    return _check_predone("and", k0, k1, k2, v0, v1, v2, mask)
